@@ -95,6 +95,16 @@ def _main(args):
     exit_code = 0
     viol_lines = []
 
+    # 0. the search (first: chunks are forked from this still pristine process) ---------------------------------------------------------------------
+    t1 = time.time()
+    total = core.run_batch(mname, prop, seed, budget["runs"], tier, args.workers,
+                           wall_cap=budget["cap"])
+    search_s = time.time() - t1
+    if total.errors:
+        say(f"HARNESS-ERROR property={prop} ({len(total.errors)} errors)")
+        sys.stderr.write("\n".join(total.errors[:3]) + "\n")
+        return 2
+
     # 1. known findings / fixed findings -----------------------------------------
     known = core.load_known(prop)
     known_report = []
@@ -151,16 +161,6 @@ def _main(args):
             say(f"HARNESS-ERROR property={prop} nondeterministic runs: {det['examples']}")
             return 2
 
-    # 4. the search ---------------------------------------------------------------------
-    t1 = time.time()
-    total = core.run_batch(mname, prop, seed, budget["runs"], tier, args.workers,
-                           wall_cap=budget["cap"])
-    search_s = time.time() - t1
-    if total.errors:
-        say(f"HARNESS-ERROR property={prop} ({len(total.errors)} errors)")
-        sys.stderr.write("\n".join(total.errors[:3]) + "\n")
-        return 2
-
     # 5. violations -> replay files, confirmed in a fresh interpreter -----------------------
     seen = set()
     for v in total.violations:
@@ -171,9 +171,22 @@ def _main(args):
         path = core.write_replay(v)
         ok, out = confirm_fresh(path, prop)
         if not ok:
-            say(f"HARNESS-ERROR property={prop} replay {path} did not reproduce in a fresh "
-                f"interpreter:\n{out}")
-            return 2
+            # the single history does not fail on its own: it needs what the earlier runs of
+            # its chunk left behind in the process.  Replay the chunk prefix instead.
+            cv = dict(v, kind="chunk", run=f"{v['run']}-chunk", start=v["chunk_start"],
+                      fail_idx=v["run"],
+                      note="fails only after the preceding runs of its chunk in the same "
+                           "process (state kept per process by the library); the single "
+                           "history in 'trace' is informational")
+            cpath = core.write_replay(cv)
+            ok2, out2 = confirm_fresh(cpath, prop, chunk=True)
+            if not ok2:
+                say(f"HARNESS-ERROR property={prop} replay {path} did not reproduce in a fresh "
+                    f"interpreter, neither alone nor with its chunk prefix:\n{out}\n{out2}")
+                return 2
+            path = cpath
+            say("note: reproduced only together with the preceding runs of its chunk "
+                "(process-level state)")
         viol_lines.append(f"VIOLATION property={prop} replay={path}")
         say(f"violation: oracle={v['oracle']} op={v['op']} signature={v['signature']} "
             f"run={v['run']} ops={len(v['trace'])} (from {v['original_length']})")
@@ -269,6 +282,18 @@ def do_replay(core, mcls, prop, path, verbose):
         say("  detail: " + json.dumps(bad, default=repr)[:3000])
         say(f"VIOLATION property={prop} replay={path}")
         return 1
+    if rep.get("kind") == "chunk":
+        idx, r = core.replay_chunk(mcls, prop, rep["seed"], rep["tier"], rep["start"],
+                                   rep["fail_idx"])
+        if r is None or r.violation is None:
+            say(f"REPLAY property={prop} result=pass (chunk {rep['start']}..{rep['fail_idx']})")
+            return 0
+        say(f"REPLAY property={prop} result=violation oracle={r.violation.oracle} op={r.vop} "
+            f"signature={r.violation.signature} run={idx} "
+            f"(chunk {rep['start']}..{rep['fail_idx']})")
+        say("  detail: " + json.dumps(r.violation.detail, default=repr)[:3000])
+        say(f"VIOLATION property={prop} replay={path}")
+        return 1
     r = core.run_trace(mcls, rep["config"], rep["trace"], known=None, keep_events=True)
     if verbose:
         for i, e in enumerate(r.error or []):
@@ -283,7 +308,7 @@ def do_replay(core, mcls, prop, path, verbose):
     return 1
 
 
-def confirm_fresh(path, prop):
+def confirm_fresh(path, prop, chunk=False):
     rep = None
     try:
         with open(path) as f:
@@ -294,7 +319,8 @@ def confirm_fresh(path, prop):
     p = subprocess.run([CHECK, prop, "--replay", path], capture_output=True, text=True,
                        env=env, timeout=600)
     want = f"oracle={rep['oracle']} op={rep['op']} "
-    ok = p.returncode == 1 and want in p.stdout and f"digest={rep['digest']}" in p.stdout
+    ok = p.returncode == 1 and want in p.stdout and \
+        (chunk or f"digest={rep['digest']}" in p.stdout)
     return ok, p.stdout + p.stderr
 
 
